@@ -244,6 +244,7 @@ class SClient(NullHandler):
         self.sent_msgs = []
         self.decode_errors = []
         self.jsonp = spec.get('jsonp')
+        self.scheme = spec.get('scheme', 'http')
         self.headers = [tuple(h) for h in spec.get('headers', [])]
         p = spec.get('poll', {})
         self.autopoll = p.get('mode', 'auto') == 'auto'
@@ -278,12 +279,12 @@ class SClient(NullHandler):
         if self.spec.get('open', 'polling') == 'websocket':
             self.open_ws = self.w.ws_connect(
                 self.idx, self.q('websocket', with_sid=False),
-                self.headers, handler=self, tag='open')
+                self.headers, handler=self, tag='open', scheme=self.scheme)
             self.open_req = self.open_ws.req
         else:
             self.open_req = self.w.http(
                 self.idx, 'GET', self.q(with_sid=False), self.headers,
-                cb=self._on_open_resp, tag='open')
+                cb=self._on_open_resp, tag='open', scheme=self.scheme)
 
     def _on_open_resp(self, req):
         if req.status != 200:
@@ -403,7 +404,8 @@ class SClient(NullHandler):
             return
         req = self.w.http(self.idx, 'GET', self.q(), self.headers,
                           cb=self._on_poll_resp,
-                          tag='poll' if auto else 'xpoll')
+                          tag='poll' if auto else 'xpoll',
+                          scheme=self.scheme)
         req.poll_out_at_issue = self.poll_out
         req.client_transport = self.transport
         req.upg_phase = self._upg_phase()
@@ -481,7 +483,7 @@ class SClient(NullHandler):
                           (headers if headers is not None else self.headers) +
                           [('Content-Type', 'text/plain;charset=UTF-8')],
                           body, cb=self._on_post_resp, declared=declared,
-                          tag=tag, lat=lat)
+                          tag=tag, lat=lat, scheme=self.scheme)
         req.client_transport = self.transport
         self.posts.append(req)
         return req
@@ -546,7 +548,8 @@ class SClient(NullHandler):
             conn = self.w.ws_connect(self.idx, query, hdrs,
                                      handler=RawWsHandler(self, r),
                                      path=r.get('path', '/engine.io/'),
-                                     tag='raw')
+                                     tag='raw',
+                                     scheme=r.get('scheme', self.scheme))
             conn.req.raw_spec = r
             conn.req.target_sid = sid
             self.raws.append(conn.req)
@@ -554,7 +557,7 @@ class SClient(NullHandler):
         req = self.w.http(self.idx, r.get('method', 'GET'), query, hdrs, body,
                           cb=self._on_raw_resp, declared=r.get('declared'),
                           path=r.get('path', '/engine.io/'),
-                          scheme=r.get('scheme', 'http'), tag='raw')
+                          scheme=r.get('scheme', self.scheme), tag='raw')
         req.raw_spec = r
         req.target_sid = sid
         self.raws.append(req)
@@ -601,7 +604,7 @@ class SClient(NullHandler):
         u['conn'] = self.w.ws_connect(
             self.idx, q or self.q('websocket'),
             [tuple(h) for h in spec.get('headers', [])] + self.headers,
-            handler=self, tag='upgrade')
+            handler=self, tag='upgrade', scheme=self.scheme)
         u['conn'].upg = u
         self.upg = u
         self.upgrades.append(u)
